@@ -231,6 +231,14 @@ def pyOrOptInt (x : Option Int) (d : Int) : Int :=
   | some c => if c != 0 then c else d
   | none => d
 
+/-- `fs.getmodified(path)` when everything the caller can learn about `path` on `fs` is given as a parameter:
+`none` = the resource does not exist (`ResourceNotFound`), `some m` = it exists and its modification time is `m`
+(`None` when the filesystem does not record one) -/
+def pyFsGetModified (st : Option (Option Int)) : Res (Option Int) :=
+  match st with
+  | none => .err .ResourceNotFound
+  | some m => .ok m
+
 /-- Python's `a & b` on (unbounded, two's complement) ints.  `-(n+1)` is `~n`; with `x & ~y = x ^ (x & y)` on
 naturals: -/
 def pyBitAnd : Int → Int → Int
